@@ -58,6 +58,7 @@ Definition out_matches (m : out) (o : obs) : verdict :=
   | RPanic n, BPanic n' => check_that (Z.of_nat n =? n') (VMismatch 3)
   | RBytes b, BBytes b' => check_that (zlist_eqb b b') (VMismatch 4)
   | RVal _ _, BPanic _ | RPanic _, BVal _ _ => VMismatch 3
+  | RLen _, BPanic _ => VMismatch 1               (* a write panicked *)
   | _, _ => VBad
   end.
 
@@ -85,11 +86,26 @@ Definition spec_bytes (ws : Z) (k : kind) (v : Z) : list Z :=
   let tc := v mod 2 ^ (8 * w) in
   map (fun i => (tc / 2 ^ (8 * Z.of_nat i)) mod 256) (seq 0 (Z.to_nat w)).
 
+(* what a typed read of kind k makes of the first bytes of the unread data: the little-endian
+   number, reinterpreted by the type (restated here, independently of the model) *)
+Definition spec_le (l : list Z) : Z :=
+  fold_right (fun b acc => b + 256 * acc) 0 l.
+Definition spec_view (ws : Z) (k : kind) (u : Z) : Z :=
+  let bits := 8 * spec_width ws k in
+  match k with
+  | KBool => if u =? 0 then 0 else 1
+  | KI8 | KI16 | KI32 | KI64 | KInt => if u <? 2 ^ (bits - 1) then u else u - 2 ^ bits
+  | _ => u
+  end.
+
 Record pstate : Type := mkP {
   pq : list (kind * Z);      (* written and not yet read back, oldest first *)
   psync : bool;              (* every read so far asked for the kind at the head of pq *)
   plen : Z;                  (* Len() as last reported by the implementation *)
   pv : verdict }.
+
+Definition unread_of (ws : Z) (q : list (kind * Z)) : list Z :=
+  concat (map (fun kv => spec_bytes ws (fst kv) (snd kv)) q).
 
 Definition fail (p : pstate) (w : N) : verdict := vjoin (pv p) (VPropFail w).
 Definition ok_if (p : pstate) (b : bool) (w : N) : verdict := if b then pv p else fail p w.
@@ -113,21 +129,29 @@ Definition pstep (ws : Z) (p : pstate) (o : op) (x : obs) : option pstate :=
           else Some (mkP (pq p) false n (pv p))
       | [] => Some (mkP [] false n (pv p))
       end
+  (* a peek of ANY kind at ANY time returns what a read of that kind would return now: the
+     decoding of the current unread bytes (when at least the width is there; with less a panic
+     is allowed), and consumes nothing *)
   | OPeek k, BVal v n =>
-      match pq p with
-      | (k', v') :: _ =>
-          if psync p && kind_eqb k k'
-          then Some (mkP (pq p) true n (ok_if p ((v =? v') && (n =? plen p)) 4))
-          else Some (mkP (pq p) (psync p) n (ok_if p (n =? plen p) 4))
-      | [] => Some (mkP (pq p) (psync p) n (ok_if p (n =? plen p) 4))
-      end
+      let w := Z.to_nat (spec_width ws k) in
+      let bytes := unread_of ws (pq p) in
+      let same := match pq p with
+                  | (k', v') :: _ => if kind_eqb k k' then v =? v' else true
+                  | [] => true
+                  end in
+      if psync p
+      then Some (mkP (pq p) true n
+                     (ok_if p ((n =? plen p) && same &&
+                               (if (length bytes <? w)%nat then true
+                                else v =? spec_view ws k (spec_le (firstn w bytes)))) 4))
+      else Some (mkP (pq p) false n (ok_if p (n =? plen p) 4))
   | OPeek k, BPanic n =>
-      match pq p with
-      | (k', _) :: _ =>
-          if psync p && kind_eqb k k' then Some (mkP (pq p) true n (fail p 4))
-          else Some (mkP (pq p) (psync p) n (ok_if p (n =? plen p) 4))
-      | [] => Some (mkP (pq p) (psync p) n (ok_if p (n =? plen p) 4))
-      end
+      let w := Z.to_nat (spec_width ws k) in
+      if psync p
+      then Some (mkP (pq p) true n (ok_if p ((n =? plen p) && (length (unread_of ws (pq p)) <? w)%nat) 4))
+      else Some (mkP (pq p) false n (ok_if p (n =? plen p) 4))
+  (* a write never panics on a healthy buffer: it appends its width *)
+  | OWrite k v, BPanic n => Some (mkP (pq p) false n (fail p 1))
   | OBytes, BBytes b =>
       if psync p
       then Some (mkP (pq p) true (plen p)
